@@ -61,7 +61,7 @@ End Target.
 Definition ep_action_ok (a : target) : Prop := a = AAccept \/ a = ADrop \/ a = AReject \/ a = AReturn.
 
 Theorem wl_to_host_policy_then_action : forall c filter e wl disp ch body p,
-  ep_action_ok (c_ep_to_host c) ->
+  ep_action_ok (c_ep_to_host c) -> c_ipvs c = false ->
   lookup filter CH_INPUT = Some (filter_input c) -> lookup filter CH_WL_TO_HOST = Some (wl_to_host c) ->
   lookup filter CH_FROM_WL = Some disp ->
   lookup_wl wl (pk_in p) = Some ch -> wl_target filter disp (pk_in p) = Some ch -> lookup filter ch = Some body ->
@@ -69,14 +69,14 @@ Theorem wl_to_host_policy_then_action : forall c filter e wl disp ch body p,
   pk_ver p = c_ver c ->
   wl_host_ok false c filter wl e p = true.
 Proof.
-  intros c filter e wl disp ch body p Ha Hin Hw Hd Hwl Ht Hb Hnf Hv.
+  intros c filter e wl disp ch body p Ha Hipvs Hin Hw Hd Hwl Ht Hb Hnf Hv.
   unfold wl_host_ok. rewrite Hwl. destruct (_ && _) eqn:Econd; [|reflexivity].
-  rewrite !andb_true_iff, !negb_true_iff in Econd. destruct Econd as [[E1 E2] E3]. cbn [negb andb] in E3.
+  rewrite !andb_true_iff, !negb_true_iff in Econd. destruct Econd as [[[E1 E2] E3] _]. cbn [negb andb] in E3.
   pose proof (infra_front_miss c e p E2) as Hfront.
   pose proof (pre_exempt_miss c e p Hv E3) as Hmiss.
   unfold hook, wl_host_expected, run_chain. rewrite Hin, Hb.
   change FUEL with (S (S (S 13))). rewrite !run_S.
-  rewrite (wl_to_host_policy_then_action_partial c filter e disp Hd Hw 13 p E1 Hfront Hmiss).
+  rewrite (wl_to_host_policy_then_action_partial c filter e disp Hd Hw Hipvs 13 p E1 Hfront Hmiss).
   rewrite (wl_target_run filter e 11 disp ch body p Ht Hb Hnf).
   rewrite (G_mono filter e 11 15 body p) by (auto; lia).
   destruct (G filter e 11 body p) as [[| |] q|q|q| |]; try reflexivity; try contradiction;
@@ -86,16 +86,16 @@ Qed.
 
 (* the INPUT half of the unknown-interface theorem in Spec.v's vocabulary *)
 Theorem unknown_dropped_input_spec : forall c filter e disp p,
-  cfg_ok c ->
+  cfg_ok c -> c_ipvs c = false ->
   lookup filter CH_INPUT = Some (filter_input c) -> lookup filter CH_WL_TO_HOST = Some (wl_to_host c) ->
   lookup filter CH_FROM_WL = Some disp -> wl_root_ok filter disp = true ->
   pk_ver p = c_ver c -> wl_iface c (pk_in p) = true -> name_in (pk_in p) (wl_names filter disp) = false ->
   infra_allowed c e p = false -> pre_policy_exempt c p = false ->
   hook filter e CH_INPUT p = VDrop.
 Proof.
-  intros c filter e disp p Hc Hin Hw Hd Hroot Hv Hwl Hun Hinfra Hex.
+  intros c filter e disp p Hc Hipvs Hin Hw Hd Hroot Hv Hwl Hun Hinfra Hex.
   unfold hook, run_chain. rewrite Hin. change FUEL with (S (S (S (S 12)))). rewrite run_S.
   apply ProofsTunnel.is_drop_verdict.
-  apply (unknown_dropped_input c filter e Hc disp Hd Hroot 12 p Hw).
+  apply (unknown_dropped_input c filter e Hc disp Hd Hroot Hipvs 12 p Hw).
   split; [split; assumption|]. split; [apply pre_exempt_miss; assumption|exact Hinfra].
 Qed.
